@@ -10,6 +10,7 @@ scenario = {
   "runs": [ [dial, ...], ... ]     dial = ["R"] | ["J", status] | ["E", [[dt, burst, kind, hexpayload], ...]]
   "sched": string of 0/1           order at simultaneous wakes (1 = the other thread first)
   "closer": optional [t, ...]      (real runs only) a second thread calling app.close() at tick t
+  "writes_fail": optional [i, t]   (real runs only) every write on connection i fails (EHOSTUNREACH) from tick t on; reads stay silent
 }
 kinds: t/T text whole/fragmented, b/B binary, p ping, q pong, c close, e eof, r reset, x protocol error,
        y payload error, h partial (first fragment of the following fragmented message, or of nothing).
@@ -59,7 +60,11 @@ def model_line(sc):
     pl = sc.get("payload", "").encode().hex() or "-"
     cfg = ",".join([str(sc.get("cbs", ALL)), str(sc.get("iv", 0)), to, pl, str(sc.get("rc", 0)),
                     "1" if sc.get("ssl") else "0", str(sc.get("horizon", 60 * TPS)), str(sc.get("fuel", FUEL))])
-    return f"m-app {cfg} {plan} {enc_runs(sc['runs'])} {sc.get('sched') or '-'}"
+    line = f"m-app {cfg} {plan} {enc_runs(sc['runs'])} {sc.get('sched') or '-'}"
+    if sc.get("kopts"):
+        # per-run keepalive settings [[iv, to], ...] (run_forever's ping_interval / ping_timeout are per-call arguments)
+        line += " " + "!".join(f"{iv}.{'N' if to is None else to}" for iv, to in sc["kopts"])
+    return line
 
 
 def project(trace_text):
@@ -277,6 +282,8 @@ def run_real(sc, line_preempt=None, wall_s=20.0, max_steps=6000):
                        wall_s=wall_s, max_steps=max_steps)
     if sc.get("stall_after_send"):
         s.stall_after_send = tuple(sc["stall_after_send"])
+    if sc.get("writes_fail"):
+        s.writes_fail = tuple(sc["writes_fail"])          # (connection index, tick): real runs only
     net = MultiNet(s, ssl_style=bool(sc.get("ssl")))
     plan = sc.get("plan", {})
     counts = {n: 0 for n in CBS}
@@ -336,8 +343,12 @@ def run_real(sc, line_preempt=None, wall_s=20.0, max_steps=6000):
     def main():
         if "rc_global" in sc:
             websocket.setReconnect(simsched.secs(sc["rc_global"]))
-        for run in sc["runs"]:
+        for ri, run in enumerate(sc["runs"]):
             net.begin_run(outcomes_of(run))
+            if sc.get("kopts"):
+                kiv, kto = sc["kopts"][ri]
+                rf["ping_interval"] = simsched.secs(kiv) if kiv else 0
+                rf["ping_timeout"] = None if kto is None else (simsched.secs(kto) if kto else 0)
             try:
                 if sc.get("ext"):
                     ext = ExtDispatcher(s)
